@@ -146,8 +146,11 @@ func (pkgGen *HttpPackageGenerator) genHandler(pkg *HttpPackage, handlerDir, han
 				}
 			}
 
-			if err := pkgGen.updateHandler(handler, handlerTplName, handler.FilePath, false); err != nil {
-				return fmt.Errorf("generate handler %s failed, err: %v", handler.FilePath, err.Error())
+			// a handler file without any handler would only consist of unused imports
+			if len(handler.Methods) != 0 {
+				if err := pkgGen.updateHandler(handler, handlerTplName, handler.FilePath, false); err != nil {
+					return fmt.Errorf("generate handler %s failed, err: %v", handler.FilePath, err.Error())
+				}
 			}
 		}
 
